@@ -126,7 +126,7 @@ def _word_list(rng, spec, n_long=6, exhaustive=3):
     ws += ex[:40]
     for _ in range(n_long):
         k = rng.choice([6, 10, 20, 40, 60]) if spec["ring"] != "Z" else rng.choice([4, 6, 8, 10])
-        ws.append(H.rand_letters(rng, alph, k))
+        ws.append(H.rand_letters(rng, alph, H.cap_len(spec, k)))
     # unknown letters -> KeyError on both sides
     if rng.random() < 0.3:
         ws.append(H.rand_letters(rng, alph, 2) + ["q" if simple else "q7"])
@@ -149,6 +149,10 @@ def gen_rep(rng, n):
         if rng.random() < 0.04:   # a wrong shape -> ValueError
             k = spec["n"] + 1
             spec["hist"].append({"g": "a", "m": H.enc(H.fident(k)), "inv": True})
+        if rng.random() < 0.4:
+            alph = H.spec_names(spec)
+            spec["relations"] = [H.join_word(H.rand_letters(rng, alph, rng.randint(1, 4)), spec["simple"])
+                                 for _ in range(rng.randint(1, 2))]
         yield {"spec": spec, "words": _word_list(rng, spec)}
 
 
@@ -163,6 +167,7 @@ def run_rep(inp):
     ok = [w["s"] for w, v in zip(inp["words"], out["vals"]) if not H.exc_name(v)]
     out["elements"] = H.guard(lambda: H.asl(rep.elements(ok), spec["ring"])) if ok else []
     out["gens"] = {k: H.asl(v, spec["ring"]) for k, v in rep.generators.items()}
+    out["rels"] = list(rep.relations)
     return out
 
 
@@ -188,6 +193,9 @@ def judge_rep(inp, obs, lr):
             return {"expected": {k: m}, "observed": obs["gens"][k], "tags": {"what": "stored generator", "inverse": k not in [h["g"] for h in inp["spec"]["hist"]]}}
     if qs[1]["ok"] != obs["asym"]:
         return {"expected": qs[1]["ok"], "observed": obs["asym"], "tags": {"what": "asym_gens"}}
+    if obs.get("rels", []) != list(inp["spec"].get("relations", [])):
+        return {"expected": {"relations": inp["spec"].get("relations", [])}, "observed": obs.get("rels"),
+                "tags": {"what": "relations of a fresh representation", "rel_mode": inp["spec"].get("rel_mode")}, "property_failure": True}
     good = []
     for w, v, b, r in zip(inp["words"], obs["vals"], obs["bounds"], qs[2:]):
         ev = H.exc_name(v)
@@ -227,6 +235,7 @@ def gen_derived(rng, n):
         spec = H.rand_spec(rng, ring=ring, simple=simple, n=dim, names=H.rand_names(rng, simple, rng.randint(1, 3)))
         alph = H.spec_names(spec)
         spec["relations"] = [H.join_word(H.rand_letters(rng, alph, rng.randint(1, 4)), simple) for _ in range(rng.randint(0, 2))]
+        H.no_int32(spec)      # Kronecker squares of int32 matrices overflow after a few letters
         inp = {"kind": kind, "spec": spec}
         q = {"q": "derived", "kind": kind}
         if kind.startswith("conjugate"):
@@ -246,7 +255,7 @@ def gen_derived(rng, n):
         if kind == "tensor":
             p = rng.randint(1, 3)
             other = H.rand_spec(rng, ring=ring, simple=simple, n=p, names=[h["g"] for h in spec["hist"]], reassign=False)
-            other["hist"] = [dict(h, m=H.enc(H.gen_matrix(rng, p, ring))) for h in spec["hist"]]
+            other["hist"] = [{"g": h["g"], "inv": h["inv"], "m": H.enc(H.gen_matrix(rng, p, ring))} for h in spec["hist"]]
             inp["other"] = other
             q["other"] = H.lean_spec(other)
         if kind.startswith("subgroup"):
@@ -255,7 +264,8 @@ def gen_derived(rng, n):
             evsimple = simple
         if kind in ("tensor", "sym2"):
             alph = H.letters_of([g for g in alph if g.lower() == g])
-        ws = H.all_words(alph[:4], 2)[:12] + [H.rand_letters(rng, alph, rng.choice([3, 5, 8])) for _ in range(3)]
+        ws = H.all_words(alph[:4], 2)[:12] + [H.rand_letters(rng, alph, min(rng.choice([3, 5, 8]), 5 if H.has_int(spec) else 8))
+                                              for _ in range(3)]
         if kind.startswith("subgroup") and len(names) > 0:
             ws = [w for w in ws]
         inp["words"] = [{"s": H.join_word(w, evsimple), "l": w} for w in ws]
@@ -349,12 +359,21 @@ def gen_fox(rng, n):
         spec = H.rand_spec(rng, ring=ring, simple=simple, n=rng.randint(1, 4), names=names, reassign=rng.random() < 0.3,
                            kind=rng.choice(["uni", "orth", "diag"]))
         alph = H.spec_names(spec)
-        rl = [H.rand_letters(rng, alph, rng.choice([1, 2, 3, 4, 6, 9, 14])) for _ in range(rng.randint(1, 3))]
+        rl = [H.rand_letters(rng, alph, H.cap_len(spec, rng.choice([1, 2, 3, 4, 6, 9, 14]))) for _ in range(rng.randint(1, 3))]
         if rng.random() < 0.1:
             rl.append([])        # IndexError
         spec["relations"] = [H.join_word(r, simple) for r in rl]
         k = rng.randrange(len(rl))
         yield {"spec": spec, "w": spec["relations"][k], "g": rng.choice(alph), "rl": rl}
+
+
+def _rel_letters(inp):
+    """relators as lists of generator names (older corpus entries carry only the strings)"""
+    if "rl" in inp:
+        return inp["rl"]
+    simple = inp["spec"]["simple"]
+    return [list(r) if simple else [g for g in r.replace("(", "*").replace(")", "*").split("*") if g]
+            for r in inp["spec"]["relations"]]
 
 
 def run_fox(inp):
@@ -364,7 +383,7 @@ def run_fox(inp):
            "diffat": H.guard(lambda: H.asl(rep.differential(inp["w"], generator=inp["g"]), ring)),
            "cocycle": H.guard(lambda: H.asl(rep.cocycle_matrix(), ring)),
            "coboundary": H.guard(lambda: H.asl(rep.coboundary_matrix(), ring)),
-           "bound": max(H.norm_bound(rep, r) for r in inp["rl"]) * 20}
+           "bound": max(H.norm_bound(rep, r) for r in _rel_letters(inp)) * 20}
     return out
 
 
@@ -405,8 +424,10 @@ def gen_hom(rng, n):
     for i in range(n):
         spec = H.rand_spec(rng)
         alph = H.spec_names(spec)
-        u = H.rand_letters(rng, alph, rng.choice([0, 1, 2, 3, 5, 8, 13]))
-        v = H.rand_letters(rng, alph, rng.choice([0, 1, 2, 3, 5, 8, 13]))
+        u = H.rand_letters(rng, alph, H.cap_len(spec, rng.choice([0, 1, 2, 3, 5, 8, 13])) // (2 if H.cap_len(spec, 99) < 99 else 1))
+        v = H.rand_letters(rng, alph, H.cap_len(spec, rng.choice([0, 1, 2, 3, 5, 8, 13])) // (2 if H.cap_len(spec, 99) < 99 else 1))
+        if rng.random() < 0.3:
+            spec["relations"] = [H.join_word(H.rand_letters(rng, alph, rng.randint(1, 4)), spec["simple"])]
         yield {"spec": spec, "u": u, "v": v, "cplx": spec["ring"] == "Q" and rng.random() < 0.4,
                "phase": [rng.randint(-3, 3), rng.randint(1, 3)]}
 
@@ -448,12 +469,16 @@ def run_hom(inp):
     if simple:
         upd("formal_inverse", rep[W.formal_inverse(j(u))] @ rep[j(u)], np.eye(n), H.norm_bound(rep, u) ** 2)
     upd("elements", rep.elements([j(u), j(v), j(u + v)])[2], rep[j(u + v)], b)
-    return {"worst": worst, "reduced_len": len(red)}
+    return {"worst": worst, "reduced_len": len(red),
+            "rels_ok": inp["cplx"] or list(rep.relations) == list(inp["spec"].get("relations", []))}
 
 
 def judge_hom(inp, obs, lr):
     if "exc" in obs:
         return {"expected": "laws evaluate", "observed": obs, "tags": {"exc": obs["exc"], "simple": inp["spec"]["simple"]}}
+    if not obs.get("rels_ok", True):
+        return {"expected": "a representation has exactly the relators it was given", "observed": "other relators",
+                "tags": {"law": "relations", "rel_mode": inp["spec"].get("rel_mode")}}
     for k, e in obs["worst"].items():
         if not e <= 1e-8:
             return {"expected": f"{k} law within 1e-8 (relative to norm bound)", "observed": e,
@@ -476,11 +501,14 @@ def gen_dor(rng, n):
         simple = kind == "hyperbolic" or rng.random() < 0.7
         ring = "Z" if kind == "astype" or (kind not in ("sym2", "hyperbolic") and rng.random() < 0.3) else "Q"
         spec = H.rand_spec(rng, ring=ring, simple=simple, n=dim, kind="orth" if kind == "hyperbolic" else None)
+        H.no_int32(spec)
         if ring == "Z":   # exact-integer generators whose float inverse is usually not exactly representable
             for h in spec["hist"]:
                 h["m"] = H.enc(H.unimodular(rng, dim, rng.randint(dim, 2 * dim + 2)))
         alph = H.spec_names(spec)
-        yield {"kind": kind, "spec": spec, "w": H.rand_letters(rng, alph, rng.choice([0, 1, 2, 4, 7])),
+        if kind not in ("hyperbolic",) and rng.random() < 0.5:
+            spec["relations"] = [H.join_word(H.rand_letters(rng, alph, rng.randint(1, 4)), simple) for _ in range(rng.randint(1, 2))]
+        yield {"kind": kind, "spec": spec, "w": H.rand_letters(rng, alph, min(rng.choice([0, 1, 2, 4, 7]), 4 if H.has_int(spec) else 7)),
                "C": H.enc(H.gen_matrix(rng, dim, "Q")), "sub": [H.rand_letters(rng, alph, rng.randint(1, 3)) for _ in range(2)],
                "other": [H.enc(H.gen_matrix(rng, 2, "Q")) for _ in spec["hist"]], "sub_inv": rng.random() < 0.5,
                "ci": rng.random() < 0.5, "assign_wrapped": rng.random() < 0.6}
@@ -511,7 +539,12 @@ def run_dor(inp):
     A = np.asarray(rep[w], dtype=float)
     Ai = np.linalg.inv(A)
     C = H.tonp(inp["C"])        # float conjugator / test vector also for integer representations
-    ev = lambda d, s=None: np.asarray(d[w if s is None else s])
+    made = []        # (derived representation, relators it must have)
+    rels = list(spec.get("relations", []))
+
+    def ev(d, inherits=True):
+        made.append((d, rels if inherits else []))
+        return np.asarray(d[w])
     if kind == "copy":
         got, want = ev(R.Representation(rep)), A
     elif kind == "conjugate":
@@ -524,9 +557,9 @@ def run_dor(inp):
         oth = R.Representation(parse_simple=simple)
         for h, m in zip(spec["hist"], inp["other"]):
             oth[h["g"]] = H.tonp(m)
-        got, want = ev(rep.tensor_product(oth)), np.kron(A, np.asarray(oth[w], dtype=float))
+        got, want = ev(rep.tensor_product(oth), False), np.kron(A, np.asarray(oth[w], dtype=float))
     elif kind == "sym2":
-        got, want = ev(rep.symmetric_square()), _sym2_ref(A)
+        got, want = ev(rep.symmetric_square(), False), _sym2_ref(A)
     elif kind in ("gln_adjoint", "sln_adjoint"):
         ci = inp.get("ci", False)
         d = rep.gln_adjoint(compute_inverses=ci) if kind == "gln_adjoint" else rep.sln_adjoint(compute_inverses=ci)
@@ -539,6 +572,7 @@ def run_dor(inp):
     elif kind == "subgroup":
         subw = [H.join_word(s, simple) for s in inp["sub"]]
         d = rep.subgroup(subw, compute_inverse=inp.get("sub_inv", True))
+        made.append((d, []))
         got = np.asarray(d["abA"])
         want = np.asarray(rep[subw[0]]) @ np.asarray(rep[subw[1]]) @ np.linalg.inv(np.asarray(rep[subw[0]], dtype=float))
     elif kind == "astype":
@@ -552,8 +586,10 @@ def run_dor(inp):
             pr = cls(parse_simple=simple)
             for h in spec["hist"]:
                 pr[h["g"]] = wrap(H.tonp(h["m"], spec["ring"]).astype(float), column_vectors=True)
+            made.append((pr, []))
         else:
             pr = cls(rep)
+            made.append((pr, rels))
         got, want = np.asarray(pr[w].matrix).T, A
         comp = pr.elements([w, w])
         if not np.allclose(np.asarray(comp.matrix)[1].T, A, atol=1e-7 * (1 + np.abs(A).max())):
@@ -561,12 +597,16 @@ def run_dor(inp):
         if kind == "projective":
             # conjugation by a wrapped transformation: w -> C^-1 rho(w) C
             cj = pr.conjugate(projective.Transformation(C, column_vectors=True))
+            made.append((cj, list(pr.relations)))
             cw = np.asarray(cj[w].matrix).T
             if not np.allclose(cw, np.linalg.inv(C) @ A @ C, atol=1e-7 * (1 + np.abs(A).max()) * (1 + np.abs(C).max()) ** 2 * 50):
                 return {"err": float("inf"), "what": "conjugate by a Transformation"}
     # every formula involves rho(w) and rho(w)^-1: bound by the norms of the letters and of their inverses
-    nb = H.norm_bound(rep, inp["w"]) * H.norm_bound(rep, [H.swapcase(x) for x in inp["w"]])
-    b = 10 * nb ** 2 * (1 + float(np.abs(C).max()) ** 2)
+    wl = inp["w"] if kind != "subgroup" else inp["sub"][0] + inp["sub"][1] + inp["sub"][0]
+    nb = H.norm_bound(rep, wl) * H.norm_bound(rep, [H.swapcase(x) for x in wl])
+    b = 10 * nb ** (3 if kind == "subgroup" else 2) * (1 + float(np.abs(C).max()) ** 2)   # subgroup: inverses of inverses
+    if list(rep.relations) != rels or any(list(d.relations) != r for d, r in made):
+        return {"err": float("inf"), "what": "relations"}
     if got.shape != want.shape:
         return {"err": float("inf"), "what": "shape"}
     return {"err": float(np.max(np.abs(got - want))) / (1 + b) if got.size else 0.0}
@@ -578,6 +618,9 @@ def judge_dor(inp, obs, lr):
         tags["compute_inverse"] = inp.get("sub_inv", True)
     if "exc" in obs:
         return {"expected": "derived representation evaluates", "observed": obs, "tags": dict(tags, exc=obs["exc"])}
+    if obs.get("what") == "relations":
+        return {"expected": "a (derived) representation has the relators of its source, a fresh one has none", "observed": obs,
+                "tags": dict(tags, what="relations", rel_mode=inp["spec"].get("rel_mode"))}
     if not obs["err"] <= 1e-8:
         return {"expected": "derived(w) = F(rep(w)) within 1e-8 (relative)", "observed": obs, "tags": tags}
     return None
@@ -593,7 +636,13 @@ def gen_foxo(rng, n):
         dim = rng.randint(1, 4)
         mode = rng.choice(["free", "commuting", "torsion"])
         spec = H.rand_spec(rng, ring=rng.choice(["Q", "Z"]) if mode == "free" else "Q", simple=simple, n=dim, names=names,
-                           reassign=False, kind=rng.choice(["uni", "orth", "diag"]))
+                           reassign=False, kind=rng.choice(["uni", "orth", "diag"]),
+                           dtmix=mode == "free" and rng.random() < 0.4)
+        # (rand_spec assigns the generators in random order: the order of asym_gens() is not the sorted one)
+        for h in spec["hist"]:
+            if rng.random() < 0.25:
+                h["g"] = H.swapcase(h["g"])        # assigned through the upper-case name
+        byname = {h["g"].lower(): h for h in spec["hist"]}
         rels = []
         if mode == "commuting" and len(names) >= 2:
             # all generators are polynomials in one matrix -> they commute
@@ -608,18 +657,18 @@ def gen_foxo(rng, n):
             # a rational rotation by 90 degrees in the first two coordinates: a^4 = 1
             M = H.fident(dim)
             M[0][0], M[0][1], M[1][0], M[1][1] = F(0), F(-1), F(1), F(0)
-            spec["hist"][0]["m"] = H.enc(M)
+            byname[names[0].lower()]["m"] = H.enc(M)       # (its inverse is a rotation of order 4 as well)
             rels = [[names[0]] * 4, [H.swapcase(names[0])] * 4]
         spec["relations"] = [H.join_word(r, simple) for r in rels]
         alph = H.spec_names(spec)
-        yield {"spec": spec, "w": H.rand_letters(rng, alph, rng.choice([1, 2, 3, 5, 8, 13, 21])),
+        yield {"spec": spec, "w": H.rand_letters(rng, alph, H.cap_len(spec, rng.choice([1, 2, 3, 5, 8, 13, 21]))),
                "cplx": rng.random() < 0.25 and spec["ring"] == "Q", "phase": [1, 2],
                "C": H.enc(H.gen_matrix(rng, dim, "Q", "uni"))}
 
 
 def run_foxo(inp):
     rep = _cbuild(inp) if inp["cplx"] and not inp["spec"]["relations"] else H.build_rep(inp["spec"])
-    rep.relations = list(inp["spec"]["relations"])
+    rels_ok = list(rep.relations) == list(inp["spec"]["relations"])      # exactly the relators it was given
     n = inp["spec"]["n"]
     letters = list(inp["w"])      # a list of generator names (older corpus entries: a simple string)
     w = H.join_word(letters, inp["spec"]["simple"])
@@ -629,15 +678,18 @@ def run_foxo(inp):
     lhs = np.asarray(rep[w]) - I
     rhs = sum(D[:, k * n:(k + 1) * n] @ (np.asarray(rep[g]) - I) for k, g in enumerate(gens))
     b = H.norm_bound(rep, letters) * 10
-    out = {"fundamental": float(np.max(np.abs(lhs - rhs))) / (1 + b), "shape_ok": D.shape == (n, n * len(gens))}
+    out = {"fundamental": float(np.max(np.abs(lhs - rhs))) / (1 + b), "shape_ok": D.shape == (n, n * len(gens)),
+           "rels_ok": rels_ok}
     # D @ coboundary = I - rho(w)
     cb = np.asarray(rep.coboundary_matrix())
     out["coboundary"] = float(np.max(np.abs(D @ cb - (I - np.asarray(rep[w]))))) / (1 + b)
     if rep.relations:
         sat = max(float(np.max(np.abs(np.asarray(rep[r]) - I))) for r in rep.relations)
         cc = np.asarray(rep.cocycle_matrix())
+        simple = inp["spec"]["simple"]
+        nbr = 10 * max(H.norm_bound(rep, r) for r in _rel_letters(inp)) ** 2     # float error scale of the products involved
         out["satisfied"] = sat
-        out["cocycle_coboundary"] = float(np.max(np.abs(cc @ cb)))
+        out["cocycle_coboundary"] = float(np.max(np.abs(cc @ cb))) / (1 + nbr)
         out["cc_shape_ok"] = cc.shape == (n * len(rep.relations), n * len(gens))
         # derived representations inherit the relations, hence have the same kind of cocycle matrix
         Cm = H.tonp(inp["C"]) if "C" in inp else np.eye(n) + np.triu(np.ones((n, n)), 1)
@@ -645,7 +697,7 @@ def run_foxo(inp):
             ccd = np.asarray(d.cocycle_matrix())
             cbd = np.asarray(d.coboundary_matrix())
             out["derived_" + name] = {"rels": list(d.relations) == list(rep.relations), "shape": ccd.shape == cc.shape,
-                                      "ann": float(np.max(np.abs(ccd @ cbd))) / (1 + float(np.abs(Cm).max()) ** 4)}
+                                      "ann": float(np.max(np.abs(ccd @ cbd))) / (1 + nbr) / (1 + float(np.abs(Cm).max()) ** 4)}
     return out
 
 
@@ -653,16 +705,19 @@ def judge_foxo(inp, obs, lr):
     ps = {"parse_simple": inp["spec"]["simple"], "site": "Representation.differential"}
     if "exc" in obs:
         return {"expected": "differential evaluates", "observed": obs, "tags": dict(ps, exc=obs["exc"])}
+    if not obs.get("rels_ok", True):
+        return {"expected": "a representation has exactly the relators it was given", "observed": "other relators",
+                "tags": dict(ps, law="relations", rel_mode=inp["spec"].get("rel_mode"))}
     if not obs["shape_ok"] or not obs.get("cc_shape_ok", True):
         return {"expected": "block shapes", "observed": obs, "tags": dict(ps, shape=True)}
     for k in ("fundamental", "coboundary"):
         if not obs[k] <= 1e-8:
             return {"expected": "rho(w) - I = sum_g D_g(w) (rho(g) - I)", "observed": obs, "tags": dict(ps, law=k)}
     for k, v in obs.items():
-        if k.startswith("derived_") and (not v["rels"] or not v["shape"] or (obs["satisfied"] <= 1e-9 and not v["ann"] <= 1e-7)):
+        if k.startswith("derived_") and (not v["rels"] or not v["shape"] or (obs["satisfied"] <= 1e-9 and not v["ann"] <= 1e-8)):
             return {"expected": "a derived representation keeps the relations; its cocycle matrix annihilates its coboundary matrix",
                     "observed": {k: v}, "tags": dict(ps, law="cocycle", derived=k[8:])}
-    if "cocycle_coboundary" in obs and obs["satisfied"] <= 1e-9 and not obs["cocycle_coboundary"] <= 1e-7:
+    if "cocycle_coboundary" in obs and obs["satisfied"] <= 1e-9 and not obs["cocycle_coboundary"] <= 1e-8:
         return {"expected": "cocycle_matrix @ coboundary_matrix = 0 for satisfied relations", "observed": obs,
                 "tags": dict(ps, law="cocycle")}
     return None
